@@ -17,6 +17,10 @@
 #include <vector>
 #include <sstream>
 #include <fstream>
+#include <sys/wait.h>
+#include <sys/resource.h>
+#include <unistd.h>
+#include <csignal>
 
 #include "common/prng.hpp"
 
@@ -24,8 +28,16 @@ namespace multi = boost::multi;
 using T = int;
 using idx_t = multi::index;
 
-#ifndef PTR
+#ifndef PTR_KIND
+#define PTR_KIND 0
+#endif
+#if PTR_KIND == 0
 using Ptr = T*;
+template<class U> T* to_mut(U* p) { return const_cast<T*>(p); }
+#else
+#include "common/fancy_ptr.hpp"
+using Ptr = fancy::xptr<T>;
+using fancy::to_mut;
 #endif
 
 constexpr int MAXD = 5;
@@ -38,13 +50,19 @@ template<multi::dimensionality_type D> auto mk(VS<D> const& s) { return multi::s
 // result of an operation -> stored state (elements become 0-D states)
 template<class V> auto store(V&& v) -> decltype(std::decay_t<V>::rank_v, AnyView{}) {
 	constexpr auto D = std::decay_t<V>::rank_v;
-	return AnyView{VS<D>{v.layout(), const_cast<Ptr>(static_cast<T const*>(v.base()))}};
+	return AnyView{VS<D>{v.layout(), to_mut(v.base())}};
 }
-inline AnyView store(T& e) { return AnyView{VS<0>{multi::layout_t<0>{multi::extensions_t<0>{}}, &e}}; }
-inline AnyView store(T const& e) { return AnyView{VS<0>{multi::layout_t<0>{multi::extensions_t<0>{}}, const_cast<T*>(&e)}}; }
 
 static T* g_mem = nullptr;  // start of the address space; addresses are reported relative to it
 static long addr_of(T const* p) { return static_cast<long>(p - g_mem); }
+#if PTR_KIND == 0
+static Ptr make_ptr(long off) { return g_mem + off; }
+#else
+template<class U> static long addr_of(fancy::xptr<U> const& p) { return static_cast<long>(p.off()); }
+static Ptr make_ptr(long off) { return Ptr::at(off); }
+#endif
+inline AnyView store(T& e) { return AnyView{VS<0>{multi::layout_t<0>{multi::extensions_t<0>{}}, make_ptr(addr_of(&e))}}; }
+inline AnyView store(T const& e) { return AnyView{VS<0>{multi::layout_t<0>{multi::extensions_t<0>{}}, make_ptr(addr_of(&e))}}; }
 
 static FILE* fprog = nullptr;
 static FILE* fans = nullptr;
@@ -79,7 +97,7 @@ static std::vector<std::vector<long>> box(std::vector<Ex> const& ex) { std::vect
 // access paths ---------------------------------------------------------------------------------------------
 template<class V> T const* addr_bracket(V&& v, long const* idx) {
 	constexpr auto D = std::decay_t<V>::rank_v;
-	if constexpr(D == 0) { return v.base(); }
+	if constexpr(D == 0) { return &*v.base(); }
 	else if constexpr(D == 1) { return &v[idx[0]]; }
 	else { return addr_bracket(v[idx[0]], idx + 1); }
 }
@@ -142,7 +160,7 @@ template<multi::dimensionality_type D> void q_paths(VS<D> const& s) {
 	std::vector<long> call, cur;
 	bool zero_based = std::all_of(ex.begin(), ex.end(), [](Ex const& e) { return e.first == 0; });
 	for(auto const& idx : idxs) {
-		if constexpr(D == 0) { call.push_back(addr_of(v.base())); if(zero_based) cur.push_back(addr_of(v.base())); }
+		if constexpr(D == 0) { call.push_back(addr_of(&*v.base())); if(zero_based) cur.push_back(addr_of(&*v.base())); }
 		else {
 			long c1 = addr_of(addr_call(v, idx.data(), std::make_index_sequence<D>{}));
 			long c2 = addr_of(addr_call(std::as_const(v), idx.data(), std::make_index_sequence<D>{}));
@@ -201,6 +219,7 @@ template<multi::dimensionality_type D> void q_iter(VS<D> const& s) {
 			}
 		}
 		std::fprintf(fans, "iter %ld %ld : %s\n", size, viol, join(ds).c_str());
+		if(viol != 0) std::fprintf(fans, "LAW-VIOLATION begin()/end() iterator laws: %ld checks failed\n", viol);
 	}
 }
 
@@ -238,6 +257,9 @@ template<multi::dimensionality_type D> void q_elems(VS<D> const& s) {
 			chk(it - b == p); chk(e - it == n - p);
 			if(p < n) { auto t = it; ++t; --t; chk(t == it); chk(addr_of(&*t) == want[static_cast<std::size_t>(p)]); }
 			if(p > 0) { auto t = it; --t; ++t; chk(t == it); if(p < n) { chk(addr_of(&*t) == want[static_cast<std::size_t>(p)]); } }
+			// mixing ++/-- with arithmetic: (++it) - 1, (++it)[-1], (--it) + 1 must come back to the same element
+			if(p < n) { auto w = want[static_cast<std::size_t>(p)]; auto t = it; ++t; auto u = t - 1; chk(addr_of(&*u) == w); chk(addr_of(&t[-1]) == w); auto d = t; --d; chk(addr_of(&*d) == w); chk(d == it); }
+			if(p > 0 && p < n) { auto w = want[static_cast<std::size_t>(p)]; auto t = it; --t; auto u = t + 1; chk(addr_of(&*u) == w); auto t2 = t; ++t2; chk(addr_of(&*t2) == w); chk(t2 == it); }
 			chk(p == n ? (it == e) : !(it == e));
 			for(long q = 0; q <= n; ++q) {
 				long k = q - p;
@@ -252,6 +274,61 @@ template<multi::dimensionality_type D> void q_elems(VS<D> const& s) {
 			}
 		}
 		std::fprintf(fans, "elems %ld %ld : %s\n", n, viol, join(byinc).c_str());
+		if(viol != 0) std::fprintf(fans, "LAW-VIOLATION elements() iterator laws: %ld checks failed\n", viol);
+	}
+}
+
+// death tests (C20) --------------------------------------------------------------------------------------------
+// runs f() in a forked child; reports how the child ended: "abort assert-in-multi" (SIGABRT with an assertion message
+// naming a file under boost/multi), "abort other", "none" (returned normally), "sig<k>"
+template<class F> std::string run_child(F&& f) {
+	std::fflush(fprog); std::fflush(fans); std::fflush(stdout);
+	int fds[2]; if(pipe(fds) != 0) return "pipe-failed";
+	pid_t pid = fork();
+	if(pid == 0) {
+		struct rlimit rl{0, 0}; setrlimit(RLIMIT_CORE, &rl);
+		dup2(fds[1], 2); close(fds[0]); close(fds[1]);
+		f();
+		_exit(0);
+	}
+	close(fds[1]);
+	std::string err; char buf[512]; ssize_t n;
+	while((n = read(fds[0], buf, sizeof buf)) > 0) err.append(buf, static_cast<std::size_t>(n));
+	close(fds[0]);
+	int st = 0; waitpid(pid, &st, 0);
+	if(WIFEXITED(st)) return WEXITSTATUS(st) == 0 ? "none" : "exit" + std::to_string(WEXITSTATUS(st));
+	if(WIFSIGNALED(st)) {
+		if(WTERMSIG(st) == SIGABRT) return (err.find("Assertion") != std::string::npos && err.find("boost/multi") != std::string::npos) ? "abort assert-in-multi" : "abort other";
+		return "sig" + std::to_string(WTERMSIG(st));
+	}
+	return "unknown";
+}
+
+static volatile T g_sink = 0;
+
+template<multi::dimensionality_type D> void q_death_index(VS<D> const& s, long i, int variant) {
+	if constexpr(D == 0) { std::fprintf(fans, "death none\n"); }
+	else {
+		auto r = run_child([&] {
+			auto&& v = mk(s); auto const& cv = v;
+			if(variant == 0) { if constexpr(D == 1) { auto&& e = v[i]; g_sink = e; } else { auto&& sub = v[i]; g_sink = static_cast<T>(sub.num_elements()); } }
+			else if(variant == 1) { if constexpr(D == 1) { auto&& e = cv[i]; g_sink = e; } else { auto&& sub = cv[i]; g_sink = static_cast<T>(sub.num_elements()); } }
+			else { if constexpr(D == 1) { auto&& e = mk(s)[i]; g_sink = e; } else { auto&& sub = cv(i); g_sink = static_cast<T>(sub.num_elements()); } }
+		});
+		std::fprintf(fans, "death %s\n", r.c_str());
+	}
+}
+
+template<multi::dimensionality_type D> void q_death_assign(VS<D> const& a, AnyView const& bv, int variant) {
+	if constexpr(D == 0) { std::fprintf(fans, "death none\n"); }
+	else {
+		if(!std::holds_alternative<VS<D>>(bv)) { std::fprintf(fans, "death bad-rank\n"); return; }
+		auto const& b = std::get<VS<D>>(bv);
+		auto r = run_child([&] {
+			auto&& va = mk(a); auto&& vb = mk(b);
+			if(variant == 0) { va = vb; } else if(variant == 1) { mk(a) = vb; } else { va = std::as_const(vb); }
+		});
+		std::fprintf(fans, "death %s\n", r.c_str());
 	}
 }
 
@@ -385,13 +462,20 @@ template<multi::dimensionality_type D> bool gen_op(VS<D> const& s, Rng& rng, boo
 	}
 }
 
+// which query families a run emits: C01 = shape/addrs/paths/bcast, C02 = iter/elems (+ shape), zero|rebased = all
+static bool g_q_shape = true, g_q_iter = true, g_death = false;
+
 static void emit_queries(AnyView const& av, int reg, Rng& rng, bool all) {
 	auto q = [&](char const* what) { std::fprintf(fprog, "q %s %d\n", what, reg); };
 	if(all || rng.coin(60)) { q("shape"); std::visit([](auto const& s) { q_shape(s); }, av); }
-	if(all || rng.coin(60)) { q("addrs"); std::visit([](auto const& s) { q_addrs(s); }, av); }
-	if(all || rng.coin(40)) { q("paths"); std::visit([](auto const& s) { q_paths(s); }, av); }
-	if(all || rng.coin(40)) { q("iter"); std::visit([](auto const& s) { q_iter(s); }, av); }
-	if(all || rng.coin(40)) { q("elems"); std::visit([](auto const& s) { q_elems(s); }, av); }
+	if(g_q_shape) {
+		if(all || rng.coin(60)) { q("addrs"); std::visit([](auto const& s) { q_addrs(s); }, av); }
+		if(all || rng.coin(40)) { q("paths"); std::visit([](auto const& s) { q_paths(s); }, av); }
+	}
+	if(g_q_iter) {
+		if(all || rng.coin(g_q_shape ? 40 : 70)) { q("iter"); std::visit([](auto const& s) { q_iter(s); }, av); }
+		if(all || rng.coin(g_q_shape ? 40 : 70)) { q("elems"); std::visit([](auto const& s) { q_elems(s); }, av); }
+	}
 }
 
 template<multi::dimensionality_type D> AnyView make_root(std::vector<Ex> const& ex, Ptr base) {
@@ -429,11 +513,15 @@ static void run_generated(std::uint64_t seed, long nprog, bool rebased) {
 		}
 		long base = 64 + rng.range(0, 9);
 		g_lo = base; g_hi = base + ne;
+#if PTR_KIND == 2
+		if(fancy::g_oob_deref != 0) { std::fprintf(fans, "OOB-DEREF %ld dereferences outside the storage\n", fancy::g_oob_deref); fancy::g_oob_deref = 0; }
+		fancy::xptr_bounds(g_lo, g_hi);
+#endif
 		std::fprintf(fprog, "prog %ld %llu\n", p, static_cast<unsigned long long>(seed)); std::fprintf(fans, "prog %ld %llu\n", p, static_cast<unsigned long long>(seed));
 		std::string rl = "root 0 " + std::to_string(base) + " " + std::to_string(D);
 		for(auto const& e : ex) rl += " " + std::to_string(e.first) + " " + std::to_string(e.last);
 		std::fprintf(fprog, "%s\n", rl.c_str());
-		AnyView cur = make_root_any(ex, g_mem + base);
+		AnyView cur = make_root_any(ex, make_ptr(base));
 		if(rng.coin(50)) emit_queries(cur, 0, rng, false);
 		int nops = static_cast<int>(rng.range(0, 7));
 		int src = 0;
@@ -448,8 +536,45 @@ static void run_generated(std::uint64_t seed, long nprog, bool rebased) {
 			if(rng.coin(25)) emit_queries(cur, 1, rng, false);
 		}
 		emit_queries(cur, src, rng, rng.coin(50));
+		if(g_death) {
+			auto cex = std::visit([](auto const& s) { return exts_of(mk(s)); }, cur);
+			auto cst = std::visit([](auto const& s) { return strides_of(mk(s)); }, cur);
+			if(!cex.empty() && cst[0] != 0) {
+				// indexing outside the extension must be stopped by an assertion
+				long k = rng.range(0, 2);
+				long i = rng.coin(50) ? cex[0].first - 1 - k : cex[0].last + k;
+				int iv = static_cast<int>(rng.range(0, 2));
+				std::fprintf(fprog, "q death_index %d %ld %d\n", src, i, iv);
+				std::visit([&](auto const& s) { q_death_index(s, i, iv); }, cur);
+				// inside the extension: silent
+				if(cex[0].size() > 0) {
+					long j = rng.range(cex[0].first, cex[0].last - 1);
+					int jv = static_cast<int>(rng.range(0, 2));
+					std::fprintf(fprog, "q death_index %d %ld %d\n", src, j, jv);
+					std::visit([&](auto const& s) { q_death_index(s, j, jv); }, cur);
+				}
+			}
+			if(!cex.empty() && cex.size() <= 4) {
+				// a second array with extents derived from the current view's: equal, one size changed, or two sizes swapped
+				std::vector<Ex> ex2 = cex; long ne2 = 1;
+				int kind = rng.pick({25, 45, 30});
+				if(kind == 1) { auto d = static_cast<std::size_t>(rng.range(0, static_cast<long>(ex2.size()) - 1)); long sz = ex2[d].size() + (rng.coin(50) && ex2[d].size() > 0 ? -1 : 1); ex2[d].last = ex2[d].first + sz; }
+				if(kind == 2 && ex2.size() >= 2) { auto d = static_cast<std::size_t>(rng.range(0, static_cast<long>(ex2.size()) - 2)); long s0 = ex2[d].size(), s1 = ex2[d + 1].size(); ex2[d].last = ex2[d].first + s1; ex2[d + 1].last = ex2[d + 1].first + s0; }
+				for(auto const& e : ex2) ne2 *= e.size();
+				if(ne2 <= 400) {
+					long base2 = 1024;
+					std::string rl = "root 2 " + std::to_string(base2) + " " + std::to_string(ex2.size());
+					for(auto const& e : ex2) rl += " " + std::to_string(e.first) + " " + std::to_string(e.last);
+					std::fprintf(fprog, "%s\n", rl.c_str());
+					AnyView second = make_root_any(ex2, make_ptr(base2));
+					int variant = static_cast<int>(rng.range(0, 2));
+					std::fprintf(fprog, "q death_assign %d 2 %d\n", src, variant);
+					std::visit([&](auto const& s) { q_death_assign(s, second, variant); }, cur);
+				}
+			}
+		}
 		// broadcast: the broadcasted view designates the source at every index of the new leading dimension
-		if(rng.coin(20)) {
+		if(g_q_shape && rng.coin(20)) {
 			long i = rng.range(-5, 5);
 			std::fprintf(fprog, "q bcast %d %ld %ld\n", src, rng.range(0, 9), i);
 			bool same = std::visit([&](auto const& s) {
@@ -477,7 +602,7 @@ static void run_replay(char const* path) {
 			std::vector<Ex> ex; long ne = 1;
 			for(int k = 0; k < D; ++k) { ex.push_back(Ex{std::stol(w[4 + 2 * static_cast<std::size_t>(k)]), std::stol(w[5 + 2 * static_cast<std::size_t>(k)])}); ne *= ex.back().size(); }
 			g_lo = base; g_hi = base + ne;
-			regs[static_cast<std::size_t>(reg)] = make_root_any(ex, g_mem + base);
+			regs[static_cast<std::size_t>(reg)] = make_root_any(ex, make_ptr(base));
 		} else if(w[0] == "v") {
 			int dst = std::stoi(w[1]); int src = std::stoi(w[2]);
 			Op op; op.name = w[3];
@@ -496,6 +621,8 @@ static void run_replay(char const* path) {
 			else if(w[1] == "paths") std::visit([](auto const& s) { q_paths(s); }, av);
 			else if(w[1] == "iter") std::visit([](auto const& s) { q_iter(s); }, av);
 			else if(w[1] == "elems") std::visit([](auto const& s) { q_elems(s); }, av);
+			else if(w[1] == "death_index") { long i = std::stol(w[3]); int iv = w.size() > 4 ? std::stoi(w[4]) : 0; std::visit([&](auto const& s) { q_death_index(s, i, iv); }, av); }
+			else if(w[1] == "death_assign") { int variant = std::stoi(w[4]); auto const& bv = regs[static_cast<std::size_t>(std::stoi(w[3]))]; std::visit([&](auto const& s) { q_death_assign(s, bv, variant); }, av); }
 			else if(w[1] == "bcast") {
 				long i = std::stol(w[4]);
 				bool same = std::visit([&](auto const& s) {
@@ -513,12 +640,19 @@ int main(int argc, char** argv) {
 	if(argc < 6) { std::fprintf(stderr, "usage: views <seed> <nprograms> <zero|rebased> <prog-out> <answers-out> [--replay file]\n"); return 2; }
 	std::uint64_t seed = std::strtoull(argv[1], nullptr, 10);
 	long nprog = std::strtol(argv[2], nullptr, 10);
-	bool rebased = std::string(argv[3]) == "rebased";
+	std::string mode = argv[3];
+	bool rebased = mode == "rebased" || mode == "rebased-c02";
+	if(mode == "c01") { g_q_iter = false; }
+	if(mode == "death") { g_death = true; g_q_iter = false; }
+	if(mode == "c02" || mode == "rebased-c02") { g_q_shape = false; }
 	fprog = std::fopen(argv[4], "w"); fans = std::fopen(argv[5], "w");
 	if(!fprog || !fans) { std::perror("fopen"); return 2; }
 	g_storage.assign(4096, 0);
 	for(std::size_t i = 0; i < g_storage.size(); ++i) g_storage[i] = static_cast<T>(i);
 	g_mem = g_storage.data();
+#if PTR_KIND != 0
+	fancy::g_origin = g_mem;
+#endif
 	if(argc >= 8 && std::string(argv[6]) == "--replay") run_replay(argv[7]);
 	else run_generated(seed, nprog, rebased);
 	std::fclose(fprog); std::fclose(fans);
